@@ -1,7 +1,7 @@
 (* C16/Props.v -- the property theorems, and nothing else.  Each is closed by [exact] of a lemma of
    Proofs.v and followed by Print Assumptions. *)
 From Coq Require Import ZArith List Lia Bool.
-From PV Require Import Base.PySlice Base.NpSearch C16.Model C16.Spec C16.Proofs C16.Proofs2.
+From PV Require Import Base.PySlice Base.NpSearch C16.Model C16.Spec C16.Proofs C16.Proofs2 C16.Rate.
 Import ListNotations.
 Open Scope Z_scope.
 
@@ -221,6 +221,39 @@ Theorem C16_reader_chunks_data : forall (A : Type) (data : list A) (sizes : list
 Proof. exact (@reader_chunks_data). Qed.
 Print Assumptions C16_reader_chunks_data.
 
+(* ---- stage 5: the chunk length of a reader comes from its sample rate ---- *)
+(* chunk_size = int(round(600.0 * sample_rate)), sample_rate = num / 2^k (every float / int is such
+   a number): the chunk length is the integer nearest to the number of samples in 600 s, the even
+   one on a tie, and it is the only such integer *)
+Theorem C16_chunk_len_nearest : forall num k cs : Z, 0 <= k ->
+  (Nearest (CHUNK_DURATION * num) (2 ^ k) cs <-> cs = chunk_len_of_rate num k).
+Proof.
+  intros num k cs Hk. split.
+  - intro H. exact (nearest_unique _ _ _ _ (pow2_pos k Hk) H (chunk_len_nearest num k Hk)).
+  - intros ->. exact (chunk_len_nearest num k Hk).
+Qed.
+Print Assumptions C16_chunk_len_nearest.
+
+(* a flat / array / random reader built for any file sizes and any sample rate with at least half a
+   sample in 600 s: its chunk bounds (computed from the rate) increase strictly from 0 to the sample
+   count, contain every file boundary, are never further apart than the chunk length = the nearest
+   integer to 600 * sample_rate, and the chunk iterator tiles the recording *)
+Theorem C16_reader_rate : forall (sizes : list Z) (num k : Z),
+  sizes <> [] -> (forall x, In x sizes -> 0 <= x) -> 0 <= k -> 1 <= chunk_len_of_rate num k ->
+  Nearest (CHUNK_DURATION * num) (2 ^ k) (chunk_len_of_rate num k) /\
+  exists b, reader_bounds_of_rate sizes num k = Some b /\
+            Bounds_Spec sizes (chunk_len_of_rate num k) b /\
+            Tiles (zsum sizes) (iter_base b).
+Proof. exact reader_rate. Qed.
+Print Assumptions C16_reader_rate.
+
+(* sample rates of at most 1/1200 Hz: the chunk length rounds to 0 and the constructor stops at
+   `assert chunk_size > 0` (no reader exists; the guard 1 <= chunk length above is needed) *)
+Theorem C16_reader_rate_zero : forall (sizes : list Z) (num k : Z),
+  0 <= k -> 0 <= num -> 2 * CHUNK_DURATION * num <= 2 ^ k -> reader_bounds_of_rate sizes num k = None.
+Proof. exact reader_rate_zero. Qed.
+Print Assumptions C16_reader_rate_zero.
+
 (* ---- non-vacuity: concrete, non-trivial instances ---- *)
 Example C16_ex_chunks :
   chunk_bounds 11 4 3 = Some [mk 0 4 0 3; mk 1 5 3 4; mk 2 6 4 5; mk 3 7 5 6; mk 4 8 6 7;
@@ -267,4 +300,15 @@ Example C16_ex_reader_chunks : option_map iter_base (get_chunk_bounds [3; 1; 5] 
   Some [mkiv 0 2; mkiv 2 3; mkiv 3 4; mkiv 4 6; mkiv 6 8; mkiv 8 9].
 Proof. vm_compute. reflexivity. Qed.
 Example C16_ex_getexc_greedy_merges : getexc_b 8 2 4 [0; 1; 2; 3; 4; 5] = true /\ getexc_b 8 2 2 [0; 1; 2; 3; 4; 5] = false.
+Proof. vm_compute. split; reflexivity. Qed.
+
+(* stage 5: 21/600 as a float is 1261007895663739 / 2^55 (600 * it is 21.000000000000004 in floats): 21,
+   not 22; 29999.954 Hz = 8246324563936281 / 2^38: 17999972; ties go to the even integer:
+   3/16 Hz -> 112.5 -> 112, 1/16 Hz -> 37.5 -> 38 *)
+Example C16_ex_chunk_len : chunk_len_of_rate 1261007895663739 55 = 21 /\
+  chunk_len_of_rate 8246324563936281 38 = 17999972 /\ chunk_len_of_rate 3 4 = 112 /\ chunk_len_of_rate 1 4 = 38
+  /\ chunk_len_of_rate 30000 0 = 18000000.
+Proof. vm_compute. repeat split. Qed.
+Example C16_ex_reader_rate : reader_bounds_of_rate [50] 1261007895663739 55 = Some [0; 21; 42; 50]
+  /\ reader_bounds_of_rate [50] 1 11 = None.
 Proof. vm_compute. split; reflexivity. Qed.
